@@ -125,6 +125,18 @@ def body(ch, ctx):
         got = sorted(f.id for f in db.children(db[names[x]]))
         ctx.check(got == sorted(names[c] for c in (l1[x] | l2[x]) if c != x), "children-differ",
                   dict(sig, level=None, by_feature=True), text=text, node=names[x], got=got)
+    # two result iterators alive at the same time (the usual nested walk, and a zip of two queries)
+    for x in range(k):
+        walked = {}
+        for m in db.children(names[x], level=1):
+            walked[m.id] = sorted(f.id for f in db.children(m, level=1))
+        want = {names[c]: sorted(names[g] for g in l1[c]) for c in l1[x]}
+        ctx.check(walked == want, "nested-iteration-differs", sig, text=text, node=names[x], got=walked, expected=want)
+    if k >= 2:
+        a = [f.id for f in db.children(names[0])]
+        b = [f.id for f in db.parents(names[k - 1])]
+        zipped = [(f.id, g.id) for f, g in zip(db.children(names[0]), db.parents(names[k - 1]))]
+        ctx.check(zipped == list(zip(a, b)), "interleaved-iteration-differs", sig, text=text, got=zipped, expected=list(zip(a, b)))
     # phantom features
     try:
         db["ghost"]
